@@ -95,6 +95,7 @@ class UserAddNode(ActionGroup):
         pred, succ = self.tracks.get_track_neighbors(track_id, time)
 
         # check if you are adding a node to a track that divided previously
+        conflicting_edges: list[tuple[int, int]] = []
         if pred is not None and self.tracks.graph.out_degree(pred) == 2:
             if not force:
                 raise InvalidActionError(
@@ -104,12 +105,8 @@ class UserAddNode(ActionGroup):
             else:
                 # Delete both conflicting edges in the upstream division.
                 succ_of_pred1, succ_of_pred2 = self.tracks.successors(pred)
-                self.actions.append(
-                    UserDeleteEdge(tracks, (pred, succ_of_pred1), _top_level=False)
-                )
-                self.actions.append(
-                    UserDeleteEdge(tracks, (pred, succ_of_pred2), _top_level=False)
-                )
+                conflicting_edges.append((pred, succ_of_pred1))
+                conflicting_edges.append((pred, succ_of_pred2))
 
         # check if you are adding a node to a track of which the parent track will divide
         # downstream
@@ -127,9 +124,21 @@ class UserAddNode(ActionGroup):
                     )
                 else:
                     # Delete the conflicting edge
-                    self.actions.append(
-                        UserDeleteEdge(tracks, (pred_of_succ, succ), _top_level=False)
-                    )
+                    conflicting_edges.append((pred_of_succ, succ))
+
+        # AddNode refuses a node without position or pixels: find out before any
+        # conflicting edge is removed, so that a refused action changes nothing
+        if pixels is None:
+            pos_key = tracks.features.position_key
+            pos_keys = pos_key if isinstance(pos_key, list) else [pos_key]
+            if not all(key in attributes for key in pos_keys):
+                raise ValueError(
+                    f"Must provide position or segmentation for node {node}"
+                )
+        for conflicting_edge in conflicting_edges:
+            self.actions.append(
+                UserDeleteEdge(tracks, conflicting_edge, _top_level=False)
+            )
 
         # Determine lineage_id from existing track nodes (if any)
         lineage_key = tracks.features.lineage_key
